@@ -153,12 +153,16 @@ def oracle (cfg : Config) (evs : List Ev) (rid : Nat) (res : String) (firstOnCid
 * `deadlock`: the receive is still blocked at quiescence although its outcome is decided;
 * `conflict-accepted`: a conflicting retransmission was swallowed;
 * `buffer-full-below-bound`: the receive failed with `ErrReceiveBufferFull` although the reader of
-  the model never saw `bound` undelivered messages (`buffered_eq_sum`: the model's counter *is* the
+  the model had not seen `bound` undelivered messages by then (`buffered_eq_sum`: the model's counter *is* the
   number of undelivered messages), and the implementation has collected everything the model has;
 * `failed-while-deliverable`: an unclassified error or a panic where the receive completes. -/
 def modelViolation (l : L2 String String) (impl model : List (Nat × Option Nat × String)) (bound : Nat) :
     Option (String × String) :=
-  let neverFull := l.core.fatal ≠ some .full
+  -- the reader of the model had not latched `full` when the receive returned after event `k`
+  let notYetFull : Option Nat → Bool := fun k => match l.fullAt, k with
+    | none, _ => true
+    | some f, some k => decide (k < f)
+    | some _, none => false
   -- every receive that completes in the model and whose result is known completed in the
   -- implementation too (or is one of the failures in question)
   let collectedAll := model.all fun (rid, _, mres) =>
@@ -166,7 +170,7 @@ def modelViolation (l : L2 String String) (impl model : List (Nat × Option Nat 
       | some (_, _, r) => r.startsWith "ok:" || r == "fatal:full"
       | none => true)
   let maxBuf := l.obs.foldl (fun m o => max m o.1) 0
-  impl.findSome? fun (rid, _, res) =>
+  impl.findSome? fun (rid, k, res) =>
     match model.find? (·.1 = rid) with
     | none => none
     | some (_, _, mres) =>
@@ -174,9 +178,9 @@ def modelViolation (l : L2 String String) (impl model : List (Nat × Option Nat 
         some ("deadlock", "receive " ++ toString rid ++ " still blocked although the model returns " ++ mres)
       else if mres.startsWith "poison:" ∧ res.startsWith "ok:" then
         some ("conflict-accepted", "receive " ++ toString rid ++ " returned " ++ res ++ " although " ++ mres)
-      else if res == "fatal:full" ∧ mres != "fatal:full" ∧ neverFull ∧ collectedAll then
+      else if res == "fatal:full" ∧ mres != "fatal:full" ∧ notYetFull k = true ∧ collectedAll then
         some ("buffer-full-below-bound", "receive " ++ toString rid ++ " failed with ErrReceiveBufferFull (model: " ++ mres ++
-          ") although never more than " ++ toString maxBuf ++ " undelivered messages were outstanding (bound " ++ toString bound ++ ")")
+          ") although the number of undelivered messages had not reached the bound by then (maximum over the trace " ++ toString maxBuf ++ ", bound " ++ toString bound ++ ")")
       else if mres.startsWith "ok:" ∧ (res.startsWith "err:" ∨ res.startsWith "panic") then
         some ("failed-while-deliverable", "receive " ++ toString rid ++ " returned " ++ res ++ " although all its messages were deposited: " ++ mres)
       else none
